@@ -177,6 +177,240 @@ def forward_writes(repo: pathlib.Path):
     return rows
 
 
+# ---- complete scan of direct/nn (nn.Module classes) + the reconstruction path of the engines --------------------------
+ENGINE_METHODS = {"forward_function", "compute_sensitivity_map", "compute_model_per_coil", "_forward_operator", "_backward_operator"}
+ENGINE_FUNCS = {"_process_output"}
+# helper -> position of its `dim` argument
+REDUCE_HELPERS = {"reduce_operator": 2, "complex_dot_product": 2, "root_sum_of_squares": 1}
+
+
+def _all_nn_files(repo: pathlib.Path):
+    return [p for p in sorted((repo / "direct" / "nn").rglob("*.py")) if p.name not in ("config.py", "__init__.py", "types.py")]
+
+
+def _is_engine_file(p: pathlib.Path) -> bool:
+    return p.name.endswith("_engine.py") or p.name == "mri_models.py"
+
+
+def _scopes(repo: pathlib.Path):
+    """yield (qualified name, FunctionDef, ClassDef or None, class attribute table) for every function on a forward /
+    reconstruction path: all methods of nn.Module classes except constructors; the reconstruction methods of the engines"""
+    trees = {p: parse_file(p) for p in _all_nn_files(repo)}
+    own, bases = {}, {}
+    for tree in trees.values():
+        for node in tree.body:
+            if isinstance(node, ast.ClassDef):
+                own[node.name] = _class_attrs(node)
+                bases[node.name] = [ast.unparse(b).split(".")[-1] for b in node.bases]
+
+    def inherited(name, seen=()):
+        out = {}
+        for b in bases.get(name, []):
+            if b in own and b not in seen:
+                out.update(inherited(b, seen + (name,)))
+        out.update(own.get(name, {}))
+        return out
+
+    for p, tree in trees.items():
+        eng = _is_engine_file(p)
+        for node in tree.body:
+            if isinstance(node, ast.ClassDef):
+                attrs = inherited(node.name)
+                for f in node.body:
+                    if not isinstance(f, ast.FunctionDef) or f.name in SKIP_METHODS:
+                        continue
+                    if eng and f.name not in ENGINE_METHODS:
+                        continue
+                    yield f"{node.name}.{f.name}", f, node, attrs
+            elif isinstance(node, ast.FunctionDef) and ((eng and node.name in ENGINE_FUNCS) or (not eng and not node.name.startswith("__"))):
+                if not eng and node.name in ("_get_relu_activation", "_get_model_config"):
+                    continue
+                yield node.name, node, None, {}
+
+
+def _class_attrs(cls: ast.ClassDef):
+    """literal values of `self.x = <literal>` in __init__ and literal defaults of its parameters"""
+    out = {}
+    for f in cls.body:
+        if isinstance(f, ast.FunctionDef) and f.name == "__init__":
+            names = [a.arg for a in f.args.args]
+            for a, d in zip(names[len(names) - len(f.args.defaults):], f.args.defaults):
+                try:
+                    out["param:" + a] = ast.literal_eval(d)
+                except (ValueError, SyntaxError):
+                    pass
+            for n in ast.walk(f):
+                if isinstance(n, ast.Assign) and len(n.targets) == 1 and isinstance(n.targets[0], ast.Attribute) \
+                        and isinstance(n.targets[0].value, ast.Name) and n.targets[0].value.id == "self":
+                    try:
+                        out[n.targets[0].attr] = ast.literal_eval(n.value)
+                    except (ValueError, SyntaxError):
+                        if isinstance(n.value, ast.Name) and ("param:" + n.value.id) in out:
+                            out[n.targets[0].attr] = out["param:" + n.value.id]
+    return out
+
+
+def _resolve_dims(node, fn: ast.FunctionDef, cls, attrs):
+    """dims argument -> (kind, axes): kind 0 = known axes, 1 = all axes (no dim), 2 = unresolved"""
+    if node is None:
+        return 1, []
+    try:
+        v = ast.literal_eval(node)
+    except (ValueError, SyntaxError):
+        v = None
+        if isinstance(node, ast.Attribute) and isinstance(node.value, ast.Name) and node.value.id == "self" and node.attr in attrs:
+            v = attrs[node.attr]
+        elif isinstance(node, ast.Name):
+            # a parameter: its default, else the value every call site in the class passes
+            names = [a.arg for a in fn.args.args]
+            if node.id in names:
+                i = names.index(node.id)
+                j = i - (len(names) - len(fn.args.defaults))
+                if j >= 0:
+                    try:
+                        v = ast.literal_eval(fn.args.defaults[j])
+                    except (ValueError, SyntaxError):
+                        v = None
+                if v is None and cls is not None:
+                    vals = set()
+                    for c in ast.walk(cls):
+                        if isinstance(c, ast.Call) and isinstance(c.func, ast.Attribute) and c.func.attr == fn.name:
+                            off = 0 if any(isinstance(d, ast.Name) and d.id == "staticmethod" for d in fn.decorator_list) else 1
+                            k = i - off
+                            arg = c.args[k] if 0 <= k < len(c.args) else next((kw.value for kw in c.keywords if kw.arg == node.id), None)
+                            if arg is not None:
+                                kk, ax = _resolve_dims(arg, fn, None, attrs)
+                                vals.add((kk, tuple(ax)))
+                    if len(vals) == 1:
+                        kk, ax = vals.pop()
+                        return kk, list(ax)
+        if v is None:
+            return 2, []
+    if isinstance(v, bool):
+        return 1, []
+    if isinstance(v, int):
+        return 0, [v]
+    if isinstance(v, (tuple, list)) and all(isinstance(x, int) and not isinstance(x, bool) for x in v):
+        return 0, list(v)
+    return 2, []
+
+
+def all_reductions(repo: pathlib.Path):
+    """every reduction call on a forward / reconstruction path: (function, op, kind, axes)"""
+    rows = []
+    for name, fn, cls, attrs in _scopes(repo):
+        for n in ast.walk(fn):
+            if not isinstance(n, ast.Call):
+                continue
+            op = None
+            recv_is_lib = False
+            ftxt = ast.unparse(n.func)
+            helper = ftxt.split(".")[-1]
+            if helper in REDUCE_HELPERS and (ftxt == helper or ftxt.startswith("T.") or ftxt.startswith("transforms.")):
+                # reductions hidden in direct.data.transforms helpers: the reduced axis is their `dim` argument
+                pos = REDUCE_HELPERS[helper]
+                dim = next((k.value for k in n.keywords if k.arg == "dim"), None)
+                if dim is None and len(n.args) > pos:
+                    dim = n.args[pos]
+                if dim is None:
+                    rows.append((name, helper, 0, [0]))       # their default `dim=0`
+                else:
+                    kind, axes = _resolve_dims(dim, fn, cls, attrs)
+                    rows.append((name, helper, kind, axes))
+                continue
+            if isinstance(n.func, ast.Attribute) and isinstance(n.func.value, ast.Name) and n.func.value.id == "self":
+                continue                                      # a method of the module itself (e.g. `self.norm(x, groups)`)
+            if isinstance(n.func, ast.Attribute) and n.func.attr in REDUCE:
+                op = n.func.attr
+                base = n.func.value
+                recv_is_lib = isinstance(base, ast.Name) and base.id in ("np", "math", "numpy")
+                is_torch_fn = isinstance(base, ast.Name) and base.id in ("torch", "F")
+                args = n.args[1:] if is_torch_fn else n.args
+            elif ast.unparse(n.func) in ("F.normalize", "torch.nn.functional.normalize"):
+                op, args = "normalize", n.args[2:] if len(n.args) > 2 else []
+            if op is None or recv_is_lib:
+                continue
+            dim = next((k.value for k in n.keywords if k.arg in ("dim", "axis")), None)
+            if dim is None and args:
+                dim = args[0]
+            if op == "normalize" and dim is None:
+                rows.append((name, op, 0, [1]))
+                continue
+            if op == "norm" and dim is None and args:
+                dim = args[1] if len(args) > 1 else None      # norm(p, dim)
+            kind, axes = _resolve_dims(dim, fn, cls, attrs)
+            rows.append((name, op, kind, axes))
+    return rows
+
+
+def reshape_rows(repo: pathlib.Path):
+    """`view(-1, …)`, `reshape(-1, …)`, `flatten(…)`: (function, op, 1 when it is the per-sample broadcast idiom `(-1, 1, 1, …)`)"""
+    rows = []
+    for name, fn, _cls, _attrs in _scopes(repo):
+        for n in ast.walk(fn):
+            if isinstance(n, ast.Call) and isinstance(n.func, ast.Attribute) and n.func.attr in ("view", "reshape", "flatten"):
+                if n.func.attr == "flatten":
+                    start = n.args[0] if n.args else next((k.value for k in n.keywords if k.arg == "start_dim"), None)
+                    try:
+                        sd = 0 if start is None else int(ast.literal_eval(start))
+                    except (ValueError, SyntaxError):
+                        sd = 0
+                    rows.append((name, "flatten", 1 if sd >= 1 else 0))
+                    continue
+                if not n.args:
+                    continue
+                first = n.args[0]
+                if not (isinstance(first, ast.UnaryOp) and isinstance(first.op, ast.USub) and isinstance(first.operand, ast.Constant)
+                        and first.operand.value == 1):
+                    continue
+                rest = n.args[1:]
+                idiom = bool(rest) and all((isinstance(a, ast.Constant) and a.value == 1) or
+                                           (isinstance(a, ast.Starred) and ("ones" in ast.unparse(a) or "(1,)" in ast.unparse(a)))
+                                           for a in rest)
+                rows.append((name, n.func.attr, 1 if idiom else 0))
+    return rows
+
+
+def seed_and_dropout_rows(repo: pathlib.Path):
+    seeds, drops = [], []
+    for name, fn, _cls, _attrs in _scopes(repo):
+        for n in ast.walk(fn):
+            if isinstance(n, ast.Call):
+                txt = ast.unparse(n.func)
+                if txt.endswith("manual_seed") or txt.endswith("random.seed") or txt in ("np.random.seed", "torch.seed", "torch.set_rng_state"):
+                    seeds.append((name, txt))
+                if txt in ("F.dropout", "F.dropout2d", "F.dropout3d", "torch.nn.functional.dropout", "torch.dropout",
+                           "torch.rand", "torch.randn", "torch.rand_like", "torch.randn_like", "torch.bernoulli", "torch.randint"):
+                    ok = any(k.arg == "training" and ast.unparse(k.value) == "self.training" for k in n.keywords)
+                    drops.append((name, txt, 1 if ok else 0))
+    return seeds, drops
+
+
+def coil_order_rows(repo: pathlib.Path):
+    """operations that single out a coil or depend on the coil order: an integer index at the coil position (`x[:, 0]`),
+    `select(coil, <constant>)`, sorting / arg-reductions / flips"""
+    rows = []
+    for name, fn, cls, attrs in _scopes(repo):
+        for n in ast.walk(fn):
+            if isinstance(n, ast.Subscript) and isinstance(n.slice, ast.Tuple) and len(n.slice.elts) >= 2:
+                e0, e1 = n.slice.elts[0], n.slice.elts[1]
+                full0 = isinstance(e0, ast.Slice) and e0.lower is None and e0.upper is None and e0.step is None
+                if full0 and isinstance(e1, ast.Constant) and isinstance(e1.value, int) and not isinstance(e1.value, bool):
+                    rows.append((name, f"index[:, {e1.value}]"))
+            if isinstance(n, ast.Call) and isinstance(n.func, ast.Attribute):
+                if n.func.attr == "select" and len(n.args) == 2:
+                    kind, ax = _resolve_dims(n.args[0], fn, cls, attrs)
+                    try:
+                        idx = ast.literal_eval(n.args[1])
+                    except (ValueError, SyntaxError):
+                        idx = None
+                    if idx is not None and (kind != 0 or ax == [1]):
+                        rows.append((name, f"select(coil, {idx})"))
+                if n.func.attr in ("sort", "argsort", "argmax", "argmin", "topk", "flip", "roll", "cumsum", "cumprod"):
+                    rows.append((name, n.func.attr))
+    return rows
+
+
 def _s(x):
     return '"' + x + '"'
 
@@ -214,6 +448,35 @@ def _extra():
     except Untranslatable as e:
         chunks.append(f"/-- SKIPPED ({e}) -/\ndef forwardWrites : BatchSep.Writes := []\n")
         status["forwardWrites"] = f"skipped: {e}"
+    # 4. the complete tables
+    try:
+        rows = all_reductions(REPO)
+        chunks.append("/-- every reduction on a forward / reconstruction path of direct/nn: (function, op, kind, axes); kind 0 = the listed\n"
+                      "axes, 1 = all axes (no `dim`), 2 = axes could not be resolved -/\n"
+                      "def allReductions : List BatchSep.Row :=\n  [" +
+                      ",\n   ".join(f"⟨{_s(a)}, {_s(b)}, {k}, {[int(x) for x in ax]}⟩" for a, b, k, ax in rows) + "]\n")
+        status["allReductions"] = "translated"
+    except Untranslatable as e:
+        chunks.append(f"/-- SKIPPED ({e}) -/\ndef allReductions : List BatchSep.Row := []\n")
+        status["allReductions"] = f"skipped: {e}"
+    try:
+        rr = reshape_rows(REPO)
+        chunks.append("/-- `view(-1, …)` / `reshape(-1, …)` / `flatten`: (function, op, 1 = per-sample broadcast idiom or batch kept) -/\n"
+                      "def reshapeRows : List (String × String × Nat) :=\n  [" + ", ".join(f"({_s(a)}, {_s(b)}, {c})" for a, b, c in rr) + "]\n")
+        seeds, drops = seed_and_dropout_rows(REPO)
+        chunks.append("/-- RNG seeding inside forward paths -/\ndef seedCalls : List (String × String) :=\n  ["
+                      + ", ".join(f"({_s(a)}, {_s(b)})" for a, b in seeds) + "]\n")
+        chunks.append("/-- functional dropout / random draws inside forward paths: (function, call, 1 = guarded by training=self.training) -/\n"
+                      "def randomCalls : List (String × String × Nat) :=\n  [" + ", ".join(f"({_s(a)}, {_s(b)}, {c})" for a, b, c in drops) + "]\n")
+        co = coil_order_rows(REPO)
+        chunks.append("/-- operations that single out a coil or depend on the coil order -/\ndef coilOrderOps : List (String × String) :=\n  ["
+                      + ", ".join(f"({_s(a)}, {_s(b)})" for a, b in co) + "]\n")
+        status["structureScans"] = "translated"
+    except Untranslatable as e:
+        chunks.append(f"/-- SKIPPED ({e}) -/\ndef reshapeRows : List (String × String × Nat) := []\n"
+                      "def seedCalls : List (String × String) := []\ndef randomCalls : List (String × String × Nat) := []\n"
+                      "def coilOrderOps : List (String × String) := []\n")
+        status["structureScans"] = f"skipped: {e}"
     return "\n".join(chunks), status
 
 
